@@ -187,6 +187,14 @@ public:
     constexpr auto swap(tuple& other) noexcept((is_nothrow_swappable_v<Ts> && ...)) -> void { _impl.swap(other._impl); }
 };
 
+/// \brief The empty tuple.
+template <>
+struct tuple<> {
+    constexpr tuple() = default;
+
+    constexpr auto swap(tuple& /*other*/) noexcept -> void { }
+};
+
 template <typename... Ts>
 tuple(Ts...) -> tuple<Ts...>;
 
@@ -235,7 +243,7 @@ template <typename... Ts, typename... Us>
 [[nodiscard]] constexpr auto operator==(tuple<Ts...> const& lhs, tuple<Us...> const& rhs) -> bool
 {
     if constexpr (sizeof...(Ts) == 0) {
-        return false;
+        return true;
     } else {
         return [&]<etl::size_t... Is>(etl::index_sequence<Is...> /*i*/) {
             using etl::get;
